@@ -141,6 +141,9 @@ def rendered_histories(rng, tier):
     from harness.props import C12
     quick = tier == "quick"
     infos = []
+    # corpus: finding D46-s6 (a header without 'description': the LaTeX document writer raises KeyError)
+    for first in ([{"op": "clause", "lits": [1, -2], "check": True}], [{"op": "init", "clauses": [[1, -2]], "kind": "list", "description": "d"}]):
+        infos.append(("wlatexdoc", dict(export_header=True, src="hist", steps=first + [{"op": "header", "key": "description", "value": None}])))
     for suite, fields, ob in JUDGED:
         hs = histlib.minimal_histories([ob])
         for h in (hs if not quick or suite != "wlatexdoc" else rng.sample(hs, 6)):
